@@ -477,7 +477,10 @@ def judge(scn, out):
             op = op_of_mark(scn, entries, i)
             exc = e[2][1]
             if op and op[0] == 'is_running' and exc == 'AttributeError':
-                if registered_at(entries, i, op[1]):
+                # the moment that counts is the failing access (the thread's previous event), not the
+                # thread-local mark that reports it
+                at = max([k for k in range(i) if entries[k][0] == e[0]] or [i])
+                if registered_at(entries, at, op[1]):
                     viol.append(('C08/is-running-raises-for-running-background-job',
                                  'is_running(name) raises AttributeError while the background job of that name is registered '
                                  '(active agent read twice without the lock; it ended in between)'))
@@ -586,7 +589,7 @@ def check_batch(ctx, cases, tag, edges_for=0, per_file=40):
                                     'real_finished': o['finished'], 'real_has_jobs': o['has_jobs']})
         ctx.extra['correspondence_mismatches'] = ctx.extra.get('correspondence_mismatches', 0) + nbad
         if edges_for:
-            eg = coq_eval(tag + 'e', IMPORTS_MODEL, 'model_edges_cases', items[:edges_for], per_file)
+            eg = coq_eval(tag + 'e', IMPORTS_MODEL, 'model_edges_cases', items[:edges_for], 25)
             cov = ctx.extra.setdefault('_edges', set())
             for g in eg:
                 cov.update(x for x in g.split(';') if x)
@@ -675,8 +678,15 @@ def explore(ctx, scn, budget_s, stats, on_violation):
                 if not cand:
                     aborted['v'] = True
                     return None
-                t = cand[0]
-                stack.append({'enabled': list(runnable), 'ops': ops, 'sleep': sleep, 'done': [t], 'chosen': t})
+                local = [t for t in cand if op_object(ops[t])[0] is None]
+                if local:
+                    # a return/exception mark touches nothing shared: it commutes with every access of
+                    # every other thread, so running it first is the only order worth exploring
+                    t = local[0]
+                    stack.append({'enabled': [t], 'ops': ops, 'sleep': sleep, 'done': [t], 'chosen': t})
+                else:
+                    t = cand[0]
+                    stack.append({'enabled': list(runnable), 'ops': ops, 'sleep': sleep, 'done': [t], 'chosen': t})
             depth['i'] = i + 1
             return runnable.index(t)
         out = run_real(scn, [], chooser=chooser, wall_s=20.0)
@@ -776,6 +786,8 @@ def run(ctx):
             found.append((scn, list(out['res'].choices), out))
     if ctx.thorough():
         plan = [(FIXED_SCENARIOS[0], 600.0),
+                ({'bodies': {'1': 'F', '2': 'F', '3': 'R', '4': 'F'},
+                  'clients': [[['add', 1], ['insert', 2]], [['insert', 3], ['spawn', 4]]]}, 420.0),
                 ({'bodies': {'1': 'F', '2': 'R'}, 'clients': [[['add', 1]], [['insert', 2]]]}, 60.0),
                 ({'bodies': {'1': 'F', '2': 'F'}, 'clients': [[['add', 1], ['is_running', 2]], [['spawn', 2]]]}, 90.0),
                 ({'bodies': {'1': 'F', '2': 'F'}, 'clients': [[['add', 1], ['add', 2]], [['clear'], ['has_jobs']]]}, 90.0)]
@@ -795,11 +807,12 @@ def run(ctx):
         except RuntimeError as ex:
             ctx.broken_tie('correspondence', 'coq evaluation', str(ex)[-2000:])
     ctx.stage('explore')
-    edges = sorted(ctx.extra.pop('_edges', set()))
+    edges = sorted({norm_edge(e) for e in ctx.extra.pop('_edges', set())})
+    known = known_edges()
     ctx.extra['model_branches_exercised'] = edges
-    ctx.extra['model_branches_known'] = len(KNOWN_EDGES)
-    ctx.extra['model_branches_not_exercised'] = sorted(set(KNOWN_EDGES) - set(edges))
-    ctx.extra['model_branches_new'] = sorted(set(edges) - set(KNOWN_EDGES))
+    ctx.extra['model_branches_known_for_this_variant'] = len(known)
+    ctx.extra['model_branches_not_exercised'] = sorted(known - set(edges))
+    ctx.extra['model_branches_beyond_known'] = sorted(set(edges) - known)
     ctx.extra['runs'] = {'compared_in_coq': len(cases), 'finished': stats['finished'], 'steps': stats['steps'],
                          'explored_steps': stats.get('explored_steps', 0)}
     ctx.extra['variant'] = dict(variant())
@@ -807,7 +820,41 @@ def run(ctx):
     ctx.extra['observation_examples'] = stats['observation_example']
 
 
-KNOWN_EDGES = []
+# branches of the access programs (point before > point after of one step of the model), as
+# exercised by long random runs on the pinned and on the repaired tree; branches that no run
+# can reach (they are excluded by the proved invariants: a non-agent popped from the queue,
+# `None.execute()` under the lock, KeyError in the background callback) are not listed
+ENTRY = {'Add0', 'Ins0', 'Sp0', 'Clear0', 'Stop0', 'Sj0', 'Has0', 'Isr0', 'Cur0', 'Qd0'}
+KNOWN_COMMON = ['Add0>Add1', 'Add1>Enq2', 'Bg0>Bg1', 'Bg1>Ret.rel', 'Cur0>RetV', 'Done0>Done1', 'Done1>Done2', 'Done2>Run0',
+                'Enq2>Ret.rel', 'Enq2>Run0', 'Has0>Has1', 'Has0>RetV', 'Has1>Has2', 'Has1>RetV', 'Has2>RetV', 'Ins0>Ins1',
+                'Ins1>Enq2', 'Isr0>Isr2', 'Isr2>RetV', 'Job0b>Job1b', 'Job0q>Job1q', 'Job1b>Bg0', 'Job1b>Job2b', 'Job1q>Done0',
+                'Job1q>Job2q', 'Job2b>Bg0', 'Job2q>Done0', 'Qd0>RetV', 'RelV>RetV', 'Ret.rel>Ret.job', 'Ret.rel>Ret.rel',
+                'Ret.rel>Ret.val', 'Ret.val>client-ends', 'Ret.val>next-call', 'RetV>client-ends', 'RetV>next-call', 'Run0>Run1',
+                'Run1>Ret.rel', 'Run1>Run2', 'Run2>Ret.rel', 'Run2>Run3', 'Run3>Run4', 'Run4>Run5', 'Run5>Run6', 'Run6>Ret.rel',
+                'Sj0>Sj1', 'Sj1>Sj2', 'Sj1>Sj4', 'Sj2>Sj3', 'Sj2>Sj4', 'Sj3>Sj6', 'Sj4>RelV', 'Sj4>Sj5', 'Sj5>Sj6', 'Sj6>RelV',
+                'Sp0>Sp1', 'Sp1>Sp2', 'Sp2>Ret.rel', 'Stop0>RetV']
+KNOWN_PINNED = ['Clear0>RetV', 'Isr0>Isr1', 'Isr1>Isr2', 'Isr1>RetV', 'Isr1>Unw.', 'Isr1>Unw.end', 'Run3>Unw.rel', 'Unw.>next-call',
+                'Unw.end>client-ends', 'Unw.rel>Unw.', 'Unw.rel>Unw.end', 'Unw.rel>Unw.job', 'Unw.rel>Unw.rel']
+KNOWN_REPAIRED = ['Clear0>Clear1', 'Clear1>RelV', 'Isr0>RetV']
+
+
+def norm_edge(e):
+    a, b = e.split('>')
+    if a in ('RetV', 'Ret.val', 'Unw.', 'Unw.end'):
+        if b in ENTRY:
+            b = 'next-call'
+        elif b == 'Ret.end':
+            b = 'client-ends'
+    return a + '>' + b
+
+
+def known_edges():
+    v = variant()
+    known = set(KNOWN_COMMON)
+    known |= set(KNOWN_REPAIRED[2:] if v['isr_once'] else [e for e in KNOWN_PINNED if e.startswith('Isr')] + ['Unw.>next-call', 'Unw.end>client-ends'])
+    known |= set(KNOWN_REPAIRED[:2] if v['clear_locked'] else ['Clear0>RetV', 'Run3>Unw.rel', 'Unw.rel>Unw.', 'Unw.rel>Unw.end',
+                                                              'Unw.rel>Unw.job', 'Unw.rel>Unw.rel', 'Unw.>next-call', 'Unw.end>client-ends'])
+    return known
 
 
 def replay(ctx, payload):
